@@ -82,16 +82,21 @@ def run_dsop(w, s):
             real = lambda: ds.take(indices=tup)
         elif form == "axis":
             real = lambda: ds.take(indices=idx, axis=axis)
+        elif form == "axis_pos":
+            real = lambda: ds.take(indices=idx, axis=axis, indexing="position")
+        elif form == "keepdims_pos":
+            real = lambda: ds.take(indices=idx, axis=axis, indexing="position", keepdims=True)
         elif form == "keepdims":
             real = lambda: ds.take(indices=idx, axis=axis, keepdims=True)
         else:
             real = lambda: ds.take(indices=dict(sel))
-        kd = form == "keepdims"
-        if form in ("axis", "keepdims"):
+        kd = form in ("keepdims", "keepdims_pos")
+        ikw = {"indexing": "position"} if form.endswith("_pos") else {}
+        if form in ("axis", "keepdims", "axis_pos", "keepdims_pos"):
             sel = {dim: idx}
         for k in keys:
             sub = {d: i for d, i in sel.items() if d in m.vars[k]["dims"]}
-            per_var[k] = (lambda a, sub=sub: a.take(dict(sub), keepdims=kd) if sub else a)
+            per_var[k] = (lambda a, sub=sub: a.take(dict(sub), keepdims=kd, **ikw) if sub else a)
     elif what == "index_prop":
         idx = dec_index(s["idx"])
         prop = s["prop"]
@@ -222,7 +227,7 @@ def run_dsop(w, s):
                 models.append(_perturbed_model(m))
         if s.get("secondary_differs") and s.get("align"):
             # one secondary axis lacks a label in the last dataset: only align=True can join them
-            mm = models[-1]
+            mm = models[min(s.get("which_differs", len(models) - 1), len(models) - 1)]    # the last one, or one in the middle
             sec = [d_ for d_ in mm.used() if d_ != dim and len(mm.dims[d_]["labels"]) >= 2]
             if sec:
                 d_ = sec[0]
